@@ -162,7 +162,7 @@ Definition kmove (last : Z) (a b : Z) : Prop :=
 Theorem kill_chain_order last s o : 2 <= last < NOT_STARTED -> kwf last s -> (k_cur s = FAILED \/ k_cur s = SUCCEEDED -> o <> KProgress) ->
   kmove last (k_cur s) (k_cur (k_step last s o)) /\ (o <> KFail -> k_cur s <> FAILED -> kwf last (k_step last s o)).
 Proof.
-  intros Hl W HF. destruct s as [c nx d].
+  intros Hl W HF. destruct s as [c nx d pg].
   destruct o as [| | |rep|ok rs]; unfold kwf, kmove, k_step, NOT_STARTED, SUCCEEDED, FAILED in *; cbn in *.
   - clear HF. destruct (c =? 100) eqn:E; cbn; split; try lia; intros; lia.
   - assert (c <> 300 /\ c <> 200) by (split; intro; apply HF; auto). clear HF.
@@ -180,3 +180,13 @@ Theorem unsuccessful_response_never_advances last s rs :
   k_next (k_step last s (KReturn false rs)) = k_next s /\
   k_step last s (KReturn true rs) = s.
 Proof. destruct rs; cbn; auto. Qed.
+
+(* a chain that restarts (ended, not concluded, repeat setting on) re-arms the stage progress: its first stage begins with
+   its first action, whatever the failed stage had got to *)
+Theorem restart_rearms_first_stage last s :
+  (k_cur s = SUCCEEDED \/ k_cur s = FAILED) -> k_done s = false ->
+  let s' := k_step last s (KOutcome true) in k_cur s' = NOT_STARTED /\ k_next s' = 1 /\ k_prog s' = 0.
+Proof.
+  intros H D. destruct s as [c nx d pg]. cbn in *. subst d.
+  destruct H as [-> | ->]; cbn; auto.
+Qed.
